@@ -14,6 +14,7 @@ import hashlib
 import random
 
 from dsim.kernel import Violations
+from models.usb2_wire import gen_idle_data
 from models import usb2
 from models.usb2 import UTMIHost, token_packet, data_packet, sof_packet, handshake_packet, parse_token, parse_data
 from engines.usb2_device import device_bench, IDLE_INIT
@@ -165,6 +166,7 @@ def gen(rng, tier, index):
         elif k == "bus_reset":
             op.update({"n": rng.randint(310, 420)})
         ops.append(op)
+    cfg["idle_data"] = gen_idle_data(rng)
     return {"engine": ENGINE, "config": cfg, "ops": ops}
 
 
@@ -377,7 +379,7 @@ def run(scn):
                 raise ValueError(k)
         yield from h.idle(timeout + 10)
 
-    host = UTMIHost(script, byte_period=cfg["byte_period"], pre=cfg["pre"], post=cfg["post"],
+    host = UTMIHost(script, idle_data=cfg.get("idle_data"), byte_period=cfg["byte_period"], pre=cfg["pre"], post=cfg["post"],
                     txready=(cfg["txready"] if cfg["txready"] == "always" else tuple(cfg["txready"])))
     per_xfer = (max(mps, ep0_mps) + 16) * 8 + 3 * timeout + 40 * bit + 60
     max_cycles = 1000 + sum((op.get("n", 0) + per_xfer * (12 if op["op"] == "control" else 5)) for op in ops)
